@@ -12,6 +12,9 @@ R19.3 bounded read: the range handed to read_range_cached is clamped to the
       resource length; a negative/None size means "to the end".
 R19.4 position protocol: seek handles SET/CUR/END, tell returns the
       position, read advances it by the number of bytes returned.
+R19.7 identity: url / session / s3 object are bound in __init__ only; in
+      fmt_s3 an explicit argument beats the URL, the URL beats the
+      environment default.
 R19.5 hand-over: RTDC_HTTP / RTDC_S3 pass their file object as h5path to
       RTDC_HDF5.__init__ and are not of format "hdf5".
 """
@@ -790,8 +793,117 @@ def r196(ctx, repo):
                    key=f"{rel}::{cname}.{f.name}::not memoised")
 
 
+def r197(ctx, repo):
+    """The resource that is read is the one that was named.
+
+    (a) the attributes that identify the remote resource (`url`, `session`
+        for HTTPFile; `s3_object`, `s3_resource`, `s3_session`, `s3_client`
+        for S3File) are bound in ``__init__`` only – re-binding them later
+        (e.g. to a redirect target) makes later range requests address
+        something else than what the length / etag / cached chunks belong to;
+    (b) where fmt_s3 combines an endpoint or credential from several
+        sources with ``or``, the explicit argument comes first, a value
+        derived from the URL second, the environment default last."""
+    ident = {HU: ("HTTPFile", {"url", "session"}),
+             S3: ("S3File", {"url", "session", "s3_object", "s3_resource",
+                             "s3_session", "s3_client"})}
+    for rel, (cname, attrs) in ident.items():
+        c = repo.cls(rel, cname)
+        seen_init = set()
+        for f in [x for x in c.body if isinstance(x, ast.FunctionDef)]:
+            for n in walk(f):
+                tg = []
+                if isinstance(n, ast.Assign):
+                    tg = n.targets
+                elif isinstance(n, (ast.AugAssign, ast.AnnAssign)):
+                    tg = [n.target]
+                elif isinstance(n, ast.Delete):
+                    tg = n.targets
+                elif isinstance(n, ast.Call) and call_name(n) == "setattr" \
+                        and len(n.args) >= 2 and txt(n.args[0]) == "self":
+                    nm = const_str(n.args[1])
+                    if nm is None:
+                        raise AnalysisError(
+                            f"{cname}.{f.name}: setattr(self, <computed>)")
+                    if nm in attrs and f.name != "__init__":
+                        ctx.ob("R19.7", False,
+                               f"{cname}.{f.name} re-binds the resource "
+                               f"identity `{nm}` through setattr", node=n,
+                               key=f"{rel}::{cname}::identity {nm} fixed")
+                for t in tg:
+                    for el in (t.elts if isinstance(t, (ast.Tuple, ast.List))
+                               else [t]):
+                        if is_self_attr(el) and el.attr in attrs:
+                            if f.name == "__init__":
+                                seen_init.add(el.attr)
+                            else:
+                                ctx.ob("R19.7", False,
+                                       f"{cname}.{f.name} re-binds "
+                                       f"`self.{el.attr}` after construction:"
+                                       f" later range requests address "
+                                       f"another location than the one the "
+                                       f"length, etag and cached chunks "
+                                       f"belong to", node=n,
+                                       key=f"{rel}::{cname}::identity "
+                                           f"{el.attr} fixed")
+        for a in sorted(seen_init):
+            ctx.ob("R19.7", True, f"{cname}: `{a}` is bound in __init__ only",
+                   node=c, key=f"{rel}::{cname}::identity {a} fixed")
+        if not seen_init:
+            raise AnalysisError(f"{cname}.__init__ binds no identity "
+                                f"attribute")
+    # (b) precedence in or-chains of fmt_s3
+    tree = repo.tree(S3)
+    env_names = set()
+    for st in tree.body:
+        if isinstance(st, ast.Assign) and isinstance(st.value, ast.Call) \
+                and "environ" in txt(st.value.func):
+            env_names |= {t.id for t in st.targets if isinstance(t, ast.Name)}
+    if not env_names:
+        raise AnalysisError("fmt_s3: environment defaults not found")
+    n_chain = 0
+    for q, f in repo.all_functions(S3):
+        params = {a.arg for a in f.args.args + f.args.kwonlyargs}
+        for n in walk(f):
+            if not (isinstance(n, ast.BoolOp) and isinstance(n.op, ast.Or)):
+                continue
+            kinds = []
+            for v in n.values:
+                if isinstance(v, ast.Name) and v.id in env_names:
+                    kinds.append("env")
+                elif isinstance(v, ast.Name) and v.id in params:
+                    kinds.append("arg")
+                elif isinstance(v, ast.Call) and (call_name(v) or "") \
+                        .startswith("get_"):
+                    kinds.append("url")
+                elif isinstance(v, ast.Constant):
+                    kinds.append("lit")      # last-resort literal
+                else:
+                    kinds.append("other")
+            if "env" not in kinds:
+                continue
+            n_chain += 1
+            rank = {"arg": 0, "url": 1, "other": 1, "env": 2, "lit": 3}
+            ok = [rank[k] for k in kinds] == sorted(rank[k] for k in kinds)
+            ctx.ob("R19.7", ok,
+                   f"{q}: `{short(n, 50)}` prefers the explicit argument, "
+                   f"then the URL, then the environment default" if ok else
+                   f"{q}: `{short(n, 60)}` lets the environment default "
+                   f"override what the URL (or the caller) names: the object "
+                   f"is read from another server", node=n,
+                   key=f"{S3}::{q}::source precedence "
+                       f"{'/'.join(sorted(set(txt(v) for v in n.values if isinstance(v, ast.Name) and v.id in env_names)))}"
+                       )
+    if n_chain < 4:
+        raise AnalysisError(f"fmt_s3: only {n_chain} source-precedence "
+                            f"chains found (6 confirmed by hand)")
+
+
 def run(ctx):
     repo = ctx.repo
+    ctx.rule("R19.7", "resource identity bound in __init__ only; explicit "
+             "argument > URL > environment default", minimum=6)
+    r197(ctx, repo)
     ctx.rule("R19.6", "per-instance state; the chunk cache is the only "
              "store of downloaded bytes", minimum=8)
     r196(ctx, repo)
@@ -812,6 +924,20 @@ def run(ctx):
 
 
 MUTANTS = [
+    ("redirect target pinned as url (seeded C19_7)", HU,
+     ('            self._len = int(resp.headers["content-length"])\n',
+      '            self._len = int(resp.headers["content-length"])\n'
+      '            self.url = resp.url\n'), "R19.7"),
+    ("environment endpoint overrides the URL's (seeded C19_8)", S3,
+     ("                          or get_endpoint_url(url)\n"
+      "                          or S3_ENDPOINT_URL),",
+      "                          or S3_ENDPOINT_URL\n"
+      "                          or get_endpoint_url(url)),"), "R19.7"),
+    ("environment credentials override the caller's", S3,
+     ("            access_key_id=(access_key_id\n"
+      "                           or S3_ACCESS_KEY_ID\n",
+      "            access_key_id=(S3_ACCESS_KEY_ID\n"
+      "                           or access_key_id\n"), "R19.7"),
     ("chunk cache as class attribute (seeded C19_5)", HU,
      [("        self.cache = {}\n", ""),
       ("class HTTPFile(io.IOBase):\n",
